@@ -1266,6 +1266,8 @@ def leaf_alphabet(thorough: bool):
     L["bm_mixed"] = B([[-1.0, -INF], [0.0, -INF]], [[1.0, 2.0], [INF, INF]])
     L["MB1"], L["MB3"], L["MB3t"], L["MB22"] = MB(1), MB(3), MB((3,)), MB((2, 2))
     L["MD2"], L["MD32"], L["MD23"] = MD((2,)), MD((3, 2)), MD((2, 3))
+    # shapes whose sum and product differ ((2, 2) cannot tell a summed flat_size from a multiplied one)
+    L["MB23"], L["bm_23"] = MB((2, 3)), B(-1.0, 2.0, shape=(2, 3))
     if thorough:
         L["D4"] = D(4)
         L["bw_fin"] = B([-1.0, 0.0, 1.0], [0.0, 0.0, 4.0])
